@@ -86,8 +86,17 @@ pub fn gen_case(prop: &str, tier: Tier, seed: u64) -> Case {
         "C05" => seqprops::gen_c05(tier, seed),
         "C07" => seqprops::gen_c07(tier, seed),
         "C08" => seqprops::gen_c08(tier, seed),
+        "C14" if seed % 5 == 0 => thrprops::gen_c10t(tier, seed, "C14"),
         "C14" => thrprops::gen_c14(tier, seed),
         "C06" => thrprops::gen_c06(tier, seed),
+        "C11" if seed % 48 == 0 => {
+            // "following any reopen (clean OR AFTER A CRASH)": the C02 workloads, every crash state
+            // continued (overwrite / remove / add / batch, close, reopen)
+            let mut c = crashprops::gen_c02(tier, seed);
+            c.prop = "C11".into();
+            c.class = format!("crash-{}", c.class);
+            c
+        }
         "C11" => seqprops::gen_c11(tier, seed),
         "C12" if seed % 8 == 0 => thrprops::gen_c12t(tier, seed),
         "C12" => seqprops::gen_c12(tier, seed),
@@ -97,6 +106,7 @@ pub fn gen_case(prop: &str, tier: Tier, seed: u64) -> Case {
         "C02" => crashprops::gen_c02(tier, seed),
         "C09" if seed % 4 == 0 => thrprops::gen_c09t(tier, seed),
         "C09" => crashprops::gen_c09(tier, seed),
+        "C10" if seed % 4 == 0 => thrprops::gen_c10t(tier, seed, "C10"),
         "C10" => crashprops::gen_c10(tier, seed),
         "C13" if seed % 3 == 0 => thrprops::gen_c13t(tier, seed),
         "C13" => crashprops::gen_c13(tier, seed),
@@ -113,6 +123,7 @@ pub fn run_case(case: &Case, dir: PathBuf) -> Outcome {
         return crate::thr::run_thr(case, dir);
     }
     match case.prop.as_str() {
+        "C11" if matches!(case.fault, Fault::Crash { .. }) => crashprops::run_faulty(case, dir),
         "C01" | "C04" | "C05" | "C07" | "C08" | "C11" | "C12" | "C16" | "C18" => seqprops::run_seq(case, dir),
         "C02" | "C09" | "C10" => crashprops::run_faulty(case, dir),
         "C13" => ioprops::run_io(case, dir),
